@@ -28,7 +28,7 @@ theorem best_chain_only_executed (P : Params) (F m hi lo : Nat) (r : Bool) (g : 
   have hP : Pres P (fun _ => True) (fun _ => True) Q := {
     frame := by intro s s' h ha; show ∀ b ∈ s'.best, _; rw [ha.2.2.2.2.1]; exact h
     conn := by
-      intro s b s' h _ _ hc
+      intro s b s' h _ _ _ hc
       obtain ⟨tip, rest, s1, ptd, _, _, hex, hs1, _, rfl⟩ := connectBlock_ok hc
       have hbest : s1.best = s.best := (saveSeq_frame hs1).2.2.2.2.2.2.2.2.2.1
       intro x hx
@@ -51,10 +51,11 @@ theorem best_chain_only_executed (P : Params) (F m hi lo : Nat) (r : Bool) (g : 
             intro x hx
             exact h x (by rw [hbest]; exact List.mem_cons_of_mem _ hx)
     store := by
-      intro s b s' h _ hs
+      intro s b s' _ h _ _ _ _ hs
       have := sameChain_storeBlock hs
       show ∀ b ∈ s'.best, _
       rw [this.1]; exact h
+    addIdx := by intro s b src h _; exact h
     poolAdd := by intro s x h _; exact h
     poolDel := by intro s x h; exact h
     restart := by intro s h; exact h }
